@@ -45,8 +45,9 @@ def Iter1.nextBack (it : Iter1 α) : Option α × Iter1 α :=
   if it.indexBack ≤ it.index then (none, it)
   else (some (it.steps.value (it.indexBack - 1)), { it with indexBack := it.indexBack - 1 })
 
-/-- `ExactSizeIterator::len` of `Iterator1D` as coded: the *total* step count. -/
-def Iter1.len (it : Iter1 α) : Nat := it.steps.n
+/-- `ExactSizeIterator::len` of `Iterator1D` (after the `fix:` commit 3d5ac37: the remaining items;
+before it the *total* step count, whatever had been consumed) -/
+def Iter1.len (it : Iter1 α) : Nat := it.indexBack - it.index
 
 /-- drain an iterator following a script of front (`false`) / back (`true`) pulls -/
 def Iter1.drain (it : Iter1 α) : List Bool → List (Option α)
@@ -100,7 +101,8 @@ def Iter2.nextBack (it : Iter2 α) : Option (α × α) × Iter2 α :=
   if it.indexBack ≤ it.index then (none, it)
   else (some (it.steps.value (it.indexBack - 1)), { it with indexBack := it.indexBack - 1 })
 
-def Iter2.len (it : Iter2 α) : Nat := it.hi - it.lo
+/-- `ExactSizeIterator::len` of `Iterator2D` (after 3d5ac37: remaining items; before: `hi − lo`) -/
+def Iter2.len (it : Iter2 α) : Nat := it.indexBack - it.index
 
 def Iter2.drain (it : Iter2 α) : List Bool → List (Option (α × α))
   | [] => []
